@@ -6,6 +6,7 @@ mod fam_cmp;
 mod fam_validate;
 mod fam_scope;
 mod fam_glob;
+mod fam_hist;
 mod util;
 
 use codec::Tok;
@@ -16,6 +17,7 @@ fn run_case(fam: i64, case: &[Vec<Tok>]) -> Vec<Vec<Tok>> {
         13 => case.iter().map(|l| fam_cmp::run_line(l)).collect(),
         2 => case.iter().map(|l| fam_validate::run_line(l)).collect(),
         14 => fam_glob::run_case(case),
+        1 => fam_hist::run_case(case),
         5 => case.iter().map(|l| fam_scope::run_line(l)).collect(),
         _ => vec![vec![-99]],
     }
